@@ -12,11 +12,11 @@ package main
 // density itself and the class constants lie in the declared domain (O5).
 
 import (
-	"go/types"
 	"fmt"
 	"go/ast"
 	"go/constant"
 	"go/token"
+	"go/types"
 	"strings"
 )
 
